@@ -187,6 +187,7 @@ type observation struct {
 	exit     int
 	csv      string // csv export bytes
 	body     string // snapshot stdout up to and including the summary line
+	norm     string // body with runs of spaces collapsed (what is compared across configurations)
 	bytes    string // total read bytes shown in the status line
 	statusOK bool
 	cmdline  string
@@ -256,6 +257,7 @@ func (e *env) run(p *Program, c *Corpus, dir string, files []string, cs Case) (*
 			lines[1] = strings.TrimLeft(lines[1], " ")
 		}
 		o.body = strings.Join(lines[:si+1], "\n")
+		o.norm = normalizeSpaces(lines[:si+1])
 		rest := lines[si+1:]
 		// the status line (progress of the readers) follows the summary
 		if len(rest) >= 1 {
@@ -282,6 +284,20 @@ func (e *env) run(p *Program, c *Corpus, dir string, files []string, cs Case) (*
 		o.body = res.stdout
 	}
 	return o, res
+}
+
+var spacesRe = regexp.MustCompile(` +`)
+
+// normalizeSpaces collapses runs of spaces and drops trailing spaces: the
+// table renderers pad a column to the widest cell they have EVER written in
+// that position, so the padding of the final snapshot depends on whether the
+// 100 ms ticker rendered an intermediate state (timing; see FINDINGS.md).
+func normalizeSpaces(lines []string) string {
+	out := make([]string, len(lines))
+	for i, l := range lines {
+		out[i] = strings.TrimRight(spacesRe.ReplaceAllString(l, " "), " ")
+	}
+	return strings.Join(out, "\n")
 }
 
 func worker(w *runner.W) {
@@ -401,6 +417,12 @@ func (e *env) baseline(p *Program, c *Corpus, n int) *observation {
 		return nil
 	}
 	e.w.Add("baseline_runs", 1)
+	if d := e.w.Param("dump", ""); d != "" && e.w.Shard == 0 { // debugging aid: -p dump=<file>
+		if f, err := os.OpenFile(d, os.O_APPEND|os.O_CREATE|os.O_WRONLY, 0o644); err == nil {
+			fmt.Fprintf(f, "## %s\n%s\nexit=%d\n%s\n--csv--\n%s\n", key, o.cmdline, o.exit, res.stdout, o.csv)
+			f.Close()
+		}
+	}
 	e.base[key] = o
 	return o
 }
@@ -480,8 +502,11 @@ func (e *env) check(p *Program, c *Corpus, dir string, files []string, cs Case, 
 			viol(pre+"differs/csv", fmt.Sprintf("csv export differs from the one of: %s\nthis: %q\nthat: %q", base.cmdline, clip(o.csv, 400), clip(base.csv, 400)))
 		}
 		if cs.Out != "csvstdout" {
+			if o.norm != base.norm {
+				viol(pre+"differs/snapshot", fmt.Sprintf("snapshot differs (beyond column padding) from the one of: %s\nthis: %q\nthat: %q", base.cmdline, clip(o.body, 500), clip(base.body, 500)))
+			}
 			if o.body != base.body {
-				viol(pre+"differs/snapshot", fmt.Sprintf("snapshot differs from the one of: %s\nthis: %q\nthat: %q", base.cmdline, clip(o.body, 500), clip(base.body, 500)))
+				w.Add("snapshots_differing_in_padding_only", 1)
 			}
 			if o.bytes != base.bytes {
 				viol(pre+"differs/read-bytes", fmt.Sprintf("status line reports %s bytes read, but %s for: %s", o.bytes, base.bytes, base.cmdline))
@@ -489,7 +514,7 @@ func (e *env) check(p *Program, c *Corpus, dir string, files []string, cs Case, 
 		}
 	}
 	if !bad {
-		w.Outcome(p.Name, fmt.Sprint(o.exit), o.csv, o.body)
+		w.Outcome(p.Name, fmt.Sprint(o.exit), o.csv, o.norm)
 		if w.WantSample() && len(files) >= 2 && cs.Tuning.Workers > 1 && ref.matched > 1 {
 			w.Sample(cs)
 		}
@@ -950,13 +975,13 @@ func main() {
 			}
 			return "real rare binary, one process per case: programs {" + strings.Join(pn, "; ") + "} x corpora {A plain, B gzip/plain alternating with -z, C with an unparsable increment and a non-matching line, D without any match} of " + n +
 				" lines `key|sub|number` (keys with comma, quote, CR, leading space) x every surjection of the lines onto 1..3 ordered files (every division x every argument order) x --workers {1,2,4} x --batch {1,2,1000} x --batch-buffer {1,4} x --readers {1,3} x GOMAXPROCS {1,4}; " +
-				"the one-file layout additionally through standard input (`-` and no argument) and with --csv - ; the order-sensitive program reduce-ordered only with one reader and one worker. Every run: --snapshot stdout, --csv file, exit status compared with the reference fold and, byte for byte, with the baseline configuration (one file, 1 worker, 1 reader, GOMAXPROCS 1). non-trivial = the reference has at least one match"
+				"the one-file layout additionally through standard input (`-` and no argument) and with --csv - ; the order-sensitive program reduce-ordered only with one reader and one worker. Every run: --snapshot stdout, --csv file, exit status compared with the reference fold and with the baseline configuration (csv and exit status byte for byte, snapshot modulo column padding) (one file, 1 worker, 1 reader, GOMAXPROCS 1). non-trivial = the reference has at least one match"
 		},
 		Assumptions: func(string) []string {
 			return []string{
 				"one OS schedule per configuration (the schedule-exhaustive part of C03 is the in-process vrt harness)",
 				"the status line below the summary (reader progress `[done/sources] bytes (rate/s) | active files`) is progress information: the byte count and the number of sources are compared, the rate, the done counter and the active-file list are not (see FINDINGS.md: the done counter is updated after the reader signals completion, so its final value depends on timing)",
-				"snapshot layout is not prescribed by C03 (C14 decides it): the numbers of the summary line, keys and counts are compared with the reference, the complete text byte for byte across configurations",
+				"snapshot layout is not prescribed by C03 (C14 decides it): the numbers of the summary line, keys and counts are compared with the reference, the complete text across configurations with runs of spaces collapsed (column padding and the heatmap header indentation depend on whether the 100 ms ticker rendered an intermediate state: timing, decided by the schedule-controlled harness; runs differing in padding only are counted in snapshots_differing_in_padding_only)",
 				"analyze: where the statement does not fix a definition (sample/population deviation, median of an even count, mode ties, nearest-rank quantiles) every common variant is accepted; all figures are further than 1e-9 from a rounding boundary of the 4-decimal display",
 			}
 		},
